@@ -194,6 +194,12 @@ def c13_case(case):
             incl, excl = [], []
             for j, (E, I) in enumerate(scen):
                 rel = f"pkg/f{j}.py"
+                if sp == "mixed":
+                    # the lines of one file named in different spellings within one option (absolute names only on the exclude side:
+                    # an absolute include is the recorded finding)
+                    excl += [spell(["rel", "abs", "glob"][i % 3], proj, rel, L) for i, L in enumerate(E)]
+                    incl += [spell(["glob", "rel"][i % 2], proj, rel, L) for i, L in enumerate(I)] if I else [spell("rel", proj, rel, None)]
+                    continue
                 excl += [spell(sp, proj, rel, L) for L in E]
                 incl += [spell(sp, proj, rel, L) for L in I] if I else [spell(sp if sp != "abs" else "rel", proj, rel, None)]
             args = ["--codemod-include", cid, "--path-include", ",".join(incl)]
@@ -290,7 +296,7 @@ def search(ctx):
         picks = pool if ctx.thorough else rng.sample(pool, min(3, len(pool)))
         for code in picks[: ctx.pick(3, 8)]:
             cases.append({"codemod": cid, "code": code, "n": rng.choice([2, 3]), "seed": rng.randint(0, 10**9),
-                          "spellings": ["rel", "glob", "abs"] if cid not in semgrep_ids or ctx.thorough else ["rel"]})
+                          "spellings": ["rel", "glob", "abs", "mixed"] if cid not in semgrep_ids or ctx.thorough else ["rel", "mixed"]})
     res = impl.pool_map(c13_case, cases)
     used = set()
     for c, r in zip(cases, res):
